@@ -94,7 +94,7 @@ fn cases_of(shapes: &[tree::Shape], full_upto: usize, seed: u64) -> Vec<Case> {
     v
 }
 
-const INSTANCES: &str = "each shape is instantiated 4 times: name class i -> NAMES[(i+r) mod 4], NAMES = [a, b, 'é x', 200-char name], and file j (depth-first) gets content kind (j+r) mod 4 of {empty, short, 70 KiB compressible text, 70 KiB poorly compressible xorshift text (deflates to > 50 KiB)}, r = 0..3 — every special name occurs in every class position and every file position sees every content kind";
+const INSTANCES: &str = "each shape is instantiated 4 times: name class i -> NAMES[(i+r) mod 4], NAMES = [a, b, 'é x', 200-char name], and file j (depth-first) gets content kind (j+r) mod 4 of {empty, short, 70 KiB compressible text, 70 KiB of xorshift64* output: raw incompressible bytes in c04 (deflated stream > 70 KiB), 64-symbol ASCII in c11 (valid UTF-8, deflates to > 50 KiB)}, r = 0..3 — every special name occurs in every class position and every file position sees every content kind";
 
 fn run_sub(mut args: Args) -> SubResult {
     let c04 = args.subcheck == "c04_sources";
@@ -116,7 +116,7 @@ fn run_sub(mut args: Args) -> SubResult {
         )
     } else {
         format!(
-            "all {} canonical tree shapes with <= {max_entries} entries (same generator as c04_sources); {INSTANCES}. Per tree: FileSystem, Embedded (real expand_dir), zip and tar {{dir members, none}} x {{plain, ./ prefix}} x {{sorted, reversed}} in memory (zip: plain deflated, ./ stored) + file-backed; asset types with extension lists [x], [x,y] (string loader), [\"\"], [x,\"\"], [] each also as Arc<T>; every directory id incl. \"\", one absent id and every file id: load_dir, load_rec_dir, iter on an AssetCache (TXY also on a LocalAssetCache); iter_cached after pre-loading every subset of <= 3 ids of the sub-tree (fresh cache each: AssetCache for T, LocalAssetCache for Arc<T>); read_dir fault injected at every directory in turn (same cache kinds)",
+            "all {} canonical tree shapes with <= {max_entries} entries (same generator as c04_sources); {INSTANCES}. Per tree: FileSystem, Embedded (real expand_dir), zip and tar {{dir members, none}} x {{plain, ./ prefix}} x {{sorted, reversed}} in memory (zip: plain deflated, ./ stored) + file-backed; asset types with extension lists [x], [x,y] (string loader), [\"\"], [x,\"\"], [] each also as Arc<T>; every directory id incl. \"\", one absent id and every file id: load_dir, load_rec_dir, iter on an AssetCache (TXY also on a LocalAssetCache); on one representative per source kind (fs, embedded, sorted plain-named archive of each flavour): iter_cached after pre-loading every subset of <= 3 ids of the sub-tree (fresh cache each: AssetCache for T, LocalAssetCache for Arc<T>); read_dir fault injected at every directory in turn (same cache kinds)",
             shapes.len()
         )
     };
@@ -136,7 +136,7 @@ fn run_sub(mut args: Args) -> SubResult {
             std::process::exit(2);
         }
         if idx % 97 == 3 {
-            let t = tree::Tree::instantiate(&cases[idx].shape, cases[idx].name_rot, cases[idx].content_rot);
+            let t = tree::Tree::instantiate(&cases[idx].shape, cases[idx].name_rot, cases[idx].content_rot, false);
             res.sample(json!({"case": idx, "tree": t.render(), "rotation": cases[idx].name_rot}));
         }
     });
@@ -191,7 +191,7 @@ fn replay(file: &str) -> i32 {
             return 2;
         };
         let case = Case { shape, name_rot: r["name_rot"].as_u64().unwrap_or(0) as usize, content_rot: r["content_rot"].as_u64().unwrap_or(0) as usize };
-        let t = tree::Tree::instantiate(&case.shape, case.name_rot, case.content_rot);
+        let t = tree::Tree::instantiate(&case.shape, case.name_rot, case.content_rot, false);
         println!("tree {} (rotation {}), all sources of the sub-check are rebuilt and queried", t.render(), case.name_rot);
         let out = match sub.as_str() {
             "c04_sources" => c04::run_case(&case, &mut res),
